@@ -51,6 +51,7 @@ func init() {
 		Run: func(c *Ctx) {
 			ruleNUM1(c)
 			ruleNUM2(c)
+			ruleNUM2alias(c)
 			ruleNUM3(c)
 			ruleNUM4(c)
 			ruleNUM5(c)
@@ -80,6 +81,7 @@ func init() {
 			ruleLEX7(c)
 			ruleLEX8(c)
 			ruleLEX9(c)
+			ruleMODE3(c) // the push parameter and the position in _lexerModes are the same numbering
 		},
 		Thorough: func(c *Ctx) {
 			onInstances(c, func(c *Ctx) {
@@ -95,7 +97,7 @@ func init() {
 	register(&PropSpec{
 		ID:    "C08",
 		Level: "other",
-		Explanation: "Decides the three mechanisms that carry the non-greedy mark from the grammar to the runtime, each a necessary condition: the loop exit state is marked for exactly the cardinalities the front end produces for '*?' and '+?' (NG-1, with a repo-wide contradiction rule: a comparison of a switch tag with a constant outside the enclosing case list is constantly false); wherever a DFA state's Accept is accumulated from constituent states NonGreedy is accumulated from the same state (NG-2); the flag reaches the table and the runtime consumes input only when it is clear (FMT-4, NG-3); DFA minimisation never merges a greedy accepting state with a non-greedy one (LEX-6 non-greedy-difference). " +
+		Explanation: "Decides the three mechanisms that carry the non-greedy mark from the grammar to the runtime, each a necessary condition: the loop exit state is marked for exactly the cardinalities the front end produces for '*?' and '+?' (NG-1, with a repo-wide contradiction rule: a comparison of a switch tag with a constant outside the enclosing case list is constantly false); wherever a DFA state's Accept is accumulated from constituent states NonGreedy is accumulated from the same state (NG-2); the flag reaches the table and the runtime consumes input only when it is clear (FMT-4, NG-3); DFA minimisation never merges a greedy accepting state with a non-greedy one (LEX-6 non-greedy-difference); the mark of a subset is taken only from loops of the rule that accepts there (NG-4; the pinned tree violates it, known finding). " +
 			"NOT decided: that marking the loop exit yields 'first occurrence of the terminator' for every body/terminator pair; interaction of the mark with state merging in optimize.",
 		Run: func(c *Ctx) {
 			ruleNG1(c)
@@ -105,6 +107,7 @@ func init() {
 			ruleNG3(c)
 			ruleLEX1(c)
 			ruleLEX6(c) // the mark survives minimisation only if greedy and non-greedy states stay apart
+			ruleNG4(c)
 		},
 		Thorough: func(c *Ctx) {
 			onInstances(c, func(c *Ctx) {
